@@ -660,6 +660,37 @@ class _SubElement(ast.NodeTransformer):
         return node
 
 
+class _HoistElement(ast.NodeTransformer):
+    """f(.., etree.Element(tag), ..) in a return / assignment / expression statement  ->  e = etree.Element(tag);
+    f(.., e, ..): a freshly made element handed on directly is first bound to a name (building it has no effect)"""
+
+    def __init__(self):
+        self.n = 0
+
+    @staticmethod
+    def _is_new(c):
+        return isinstance(c, ast.Call) and isinstance(c.func, ast.Attribute) and c.func.attr == "Element" and isinstance(c.func.value, ast.Name) and c.func.value.id in ("etree", "ET", "ElementTree") and not c.keywords
+
+    def _hoist(self, node, call):
+        pre = []
+        if isinstance(call, ast.Call) and not self._is_new(call):
+            for i, a in enumerate(call.args):
+                if self._is_new(a):
+                    self.n += 1
+                    nm = "_element%d" % self.n
+                    pre.append(ast.copy_location(ast.Assign(targets=[ast.Name(id=nm, ctx=ast.Store())], value=a, type_comment=None), node))
+                    call.args[i] = ast.copy_location(ast.Name(id=nm, ctx=ast.Load()), a)
+        return pre
+
+    def visit_Return(self, node):
+        pre = self._hoist(node, node.value)
+        return [ast.fix_missing_locations(p) for p in pre] + [node] if pre else node
+
+    def visit_Assign(self, node):
+        pre = self._hoist(node, node.value)
+        return [ast.fix_missing_locations(p) for p in pre] + [node] if pre else node
+
+
 def _callable_literal(e):
     """lambda without defaults, or operator.attrgetter("name")"""
     if isinstance(e, ast.Lambda):
@@ -770,12 +801,66 @@ def _delegations(tree):
     return count
 
 
+class _MapExtend(ast.NodeTransformer):
+    """x.extend(map(f, it)) as a statement  ->  for v in it: x.append(f(v));
+    cls.P(args) where the class binds P = partial(g, c1, ..) once  ->  g(c1, .., args)"""
+
+    def __init__(self, tree):
+        self.partials = {}  # class name -> {attr: (func expr, [const args], {kw})}
+        for c in [n for n in ast.walk(tree) if isinstance(n, ast.ClassDef)]:
+            seen = {}
+            for st in c.body:
+                if isinstance(st, ast.Assign) and len(st.targets) == 1 and isinstance(st.targets[0], ast.Name):
+                    nm = st.targets[0].id
+                    seen[nm] = None if nm in seen else st.value
+            for nm, v in seen.items():
+                if isinstance(v, ast.Call) and ast.unparse(v.func) in ("partial", "functools.partial") and v.args and all(_simple(a) for a in v.args[1:]) and all(k.arg and _simple(k.value) for k in v.keywords) and isinstance(v.args[0], (ast.Name, ast.Attribute)):
+                    self.partials.setdefault(c.name, {})[nm] = v
+        self.cls = []
+        self.n = 0
+
+    def visit_ClassDef(self, node):
+        self.cls.append(node.name)
+        self.generic_visit(node)
+        self.cls.pop()
+        return node
+
+    def visit_Call(self, node):
+        self.generic_visit(node)
+        f = node.func
+        if isinstance(f, ast.Attribute) and isinstance(f.value, ast.Name):
+            owner = self.cls[-1] if f.value.id in ("self", "cls") and self.cls else f.value.id
+            p = self.partials.get(owner, {}).get(f.attr)
+            if p is not None and not any(isinstance(a, ast.Starred) for a in node.args):
+                kws = [copy.deepcopy(k) for k in p.keywords if k.arg not in {k2.arg for k2 in node.keywords}] + node.keywords
+                return ast.copy_location(ast.Call(func=copy.deepcopy(p.args[0]), args=[copy.deepcopy(a) for a in p.args[1:]] + node.args, keywords=kws), node)
+        return node
+
+    def visit_Expr(self, node):
+        self.generic_visit(node)
+        c = node.value
+        if isinstance(c, ast.Call) and isinstance(c.func, ast.Attribute) and c.func.attr == "extend" and len(c.args) == 1 and not c.keywords:
+            m = c.args[0]
+            if isinstance(m, ast.Call) and isinstance(m.func, ast.Name) and m.func.id == "map" and len(m.args) == 2 and not m.keywords and isinstance(m.args[0], (ast.Name, ast.Attribute, ast.Lambda)):
+                self.n += 1
+                v = "_mapped%d" % self.n
+                call = ast.Call(func=m.args[0], args=[ast.Name(id=v, ctx=ast.Load())], keywords=[])
+                call = self.visit_Call(ast.copy_location(call, node)) if not isinstance(m.args[0], ast.Lambda) else _Beta().visit(ast.copy_location(call, node))
+                app = ast.Expr(value=ast.Call(func=ast.Attribute(value=c.func.value, attr="append", ctx=ast.Load()), args=[call], keywords=[]))
+                loop = ast.For(target=ast.Name(id=v, ctx=ast.Store()), iter=m.args[1], body=[ast.copy_location(app, node)], orelse=[], type_comment=None)
+                ast.copy_location(loop, node)
+                return ast.fix_missing_locations(loop)
+        return node
+
+
 def normalise(tree):
     """unroll table-driven loops and fold constant getattr / setattr; returns (tree, number of loops unrolled)"""
     _delegations(tree)
+    tree = _MapExtend(tree).visit(tree)
     u = Unroller(tree)
     tree = u.visit(tree)
     tree = _FoldAttr().visit(tree)
     tree = _SubElement().visit(tree)
+    tree = _HoistElement().visit(tree)
     ast.fix_missing_locations(tree)
     return tree, u.count
